@@ -801,6 +801,13 @@ fn c18_case<A: QElem>(rng: &mut Rng, acc: &mut Acc) {
         qs[0] = 0.0;
         qs[nq - 1] = 1.0;
     }
+    // dense request: every rank of the lane (or most of them), scrambled
+    if n >= 2 && rng.chance(0.08) {
+        let keep = *rng.pick(&[1.0, 0.9, 0.8]);
+        qs = (0..n).filter(|_| rng.chance(keep)).map(|k| k as f64 / (n - 1) as f64).collect();
+        rng.shuffle(&mut qs);
+        acc.count("qs_dense_all_ranks");
+    }
     // the request list in non-decreasing / non-increasing order (several requests inside one rank gap included)
     match rng.below(10) {
         0 | 1 | 2 => {
@@ -817,7 +824,8 @@ fn c18_case<A: QElem>(rng: &mut Rng, acc: &mut Acc) {
     let bulk = exec(&c, epb, &qs, st, pick_policy(rng));
     acc.eval();
     acc.count(&format!("elem_{}", A::NAME));
-    acc.count(&format!("nq_{}", nq));
+    let nq = qs.len();
+    acc.count(&format!("nq_{}", if nq > 32 { 33 } else { nq }));
     let lanes = lanes_of(&c.shape, c.axis).len();
     let mut f7 = false;
     {
